@@ -238,6 +238,28 @@ static void prop(Ctx &c) {
             zck_free(&z); close(fd3);
         }
     }
+    // the advanced open with options a reader has no business setting (writer-side options are accepted or refused, either is
+    // fine), and a caller that answers a refused header with zck_clear_error() and asks again on the same context: an altered
+    // header must stay refused
+    if (c.gver >= 4) {
+        ref::ParseResult pq = ref::parse(s.file); size_t H = pq.h.total_size;
+        static const int opts[] = {ZCK_UNCOMP_HEADER, ZCK_NO_WRITE, ZCK_HASH_FULL_TYPE, ZCK_HASH_CHUNK_TYPE, ZCK_COMP_TYPE, ZCK_MANUAL_CHUNK, ZCK_CHUNK_MAX, ZCK_CHUNK_MIN, ZCK_ZSTD_COMP_LEVEL};
+        for (size_t k = 0; k < 12; k++) {
+            size_t pos = (k * 2654435761u + s.file[5] * 131u + s.file[pq.h.lead_size - 1]) % H; Bytes m = s.file; m[pos] ^= (uint8_t)(1u << (k % 8));
+            ref::ParseResult pm = ref::parse(m); if (pm.ok && pm.h.checksum_ok) continue;
+            int fd4 = lib::mkfd(m); zckCtx *z = zck_create(); evals++; std::string how;
+            bool ok = zck_init_adv_read(z, fd4);
+            if (ok && k < 9) { int o = opts[k]; ssize_t v = o == ZCK_HASH_FULL_TYPE || o == ZCK_HASH_CHUNK_TYPE ? (ssize_t)((pq.h.hash_type + 1) % 3) : o == ZCK_COMP_TYPE ? ZCK_COMP_NONE : o == ZCK_CHUNK_MAX ? 100000 : o == ZCK_CHUNK_MIN ? 10 : o == ZCK_ZSTD_COMP_LEVEL ? 3 : 1;
+                               bool r = zck_set_ioption(z, (zck_ioption)o, v); how = "option " + std::to_string(o) + (r ? " (accepted)" : " (refused)") + " set on the read context before the lead; "; if (!r && zck_is_error(z) && !zck_clear_error(z)) ok = false; }
+            bool opened = ok && zck_read_lead(z) && zck_read_header(z);
+            if (!opened && ok && k >= 6) {          // ask again on the same context after clearing the error (lead again if that was what failed)
+                if (zck_is_error(z) && zck_clear_error(z)) { lseek(fd4, 0, SEEK_SET); bool again = zck_read_header(z); if (!again && zck_is_error(z) && zck_clear_error(z)) { lseek(fd4, 0, SEEK_SET); again = zck_read_lead(z) && zck_read_header(z); }
+                    if (again) { opened = true; how += "refused at first, accepted when asked again after zck_clear_error(); "; } } }
+            zck_free(&z); close(fd4);
+            if (opened) { c.extra_evals = evals; c.fail("altered-header-accepted-on-advanced-open", "header byte " + std::to_string(pos) + " was changed and the step-by-step open accepts the header: " + how + "(reference: " + pm.reason + ")"); }
+        }
+        c.label("advanced-open-variants");
+    }
     // the two integers of the lead written in a different (longer, value-preserving) encoding, everything else - including the
     // stored checksum - left alone: the checksum covers the bytes, not the values, so none of these may open
     {
